@@ -44,6 +44,8 @@ from rv.sim import Bench
 
 PROPERTY = "C38"
 CASES = {"quick": 160, "thorough": 2400}
+# generous watchdogs: the box is shared; unloaded the quick tier needs < 60 s on 16 workers
+TIMEOUT = {"quick": 3600, "thorough": 8 * 3600}
 RULE = ("case = 5 sessions x 3-5 link lives; each life: advertisement judged, probe headers, random state building, then a crash "
         "point = (provoked command in {LGOOD, LCRD, LBAD, LRTY, LUP, LXU, advert, burst, idle, header race}) x (offset k in 0..14 "
         "cycles after the provoking event) x (PHY ready profile / directed stall) x (link-down pattern: disable / warm reset / hot "
